@@ -50,6 +50,10 @@ def generate(rng, tier):
         if rng.random() < 0.1 and "tensor" not in fmt:
             shape[rng.randrange(3)] = 0
         cases.append(mk(rng, fmt, ty, shape, len(cases)))
+        # the Array3 entry points take arrays of any memory layout: the same logical content handed over column-major or as
+        # a permuted-axes view must give the same file
+        if "tensor" not in fmt and rng.random() < 0.35:
+            cases[-1]["layout"] = rng.choice(["fortran", "permuted"])
     # error paths
     for fmt, tys in FMTS:
         cases.append(dict(mk(rng, fmt, tys[0], [2, 2, 2], len(cases)), path="/verif/.cache/no_such_dir/x/out.dat", kind="badpath"))
